@@ -44,7 +44,20 @@ def _big_stack():
         pass
 
 
+def _dump_corpus(cmd, input):
+    """VERIF_DUMP_CORPUS=<file>: log every invocation of the hooks-on release harness (arguments + stdin), for the
+    mutation survey of tools/mutsurvey.py; never set by the registered checks"""
+    path = os.environ.get("VERIF_DUMP_CORPUS")
+    if not path or isinstance(cmd, str) or not cmd[0].endswith(os.path.join("on", "release", "gv")):
+        return
+    if len(cmd) > 1 and cmd[1] in ("file", "dir", "classes", "tables"):
+        return
+    with open(path, "a") as f:
+        f.write(json.dumps({"args": cmd[1:], "stdin": input}) + "\n")
+
+
 def sh(cmd, timeout=1200, cwd=None, env=None, input=None):
+    _dump_corpus(cmd, input)
     try:
         pre = _big_stack if (not isinstance(cmd, str) and os.path.basename(cmd[0]) == "gm") else None
         p = subprocess.run(cmd, shell=isinstance(cmd, str), cwd=cwd, env=env or ENV, input=input,
